@@ -7,7 +7,9 @@ import verus_run, kani_run
 ROOT = os.path.dirname(os.path.dirname(os.path.abspath(__file__)))
 PLAN = os.path.join(ROOT, "plan.json")
 KNOWN = os.path.join(ROOT, "known_findings.json")
-EVID = os.path.join(ROOT, "evidence")
+# runs against a scratch copy of the repository (VERIF_REPO set: seeded changes, refactoring experiments) must not
+# overwrite the evidence of /repo itself
+EVID = os.path.join(ROOT, "evidence") if not os.environ.get("VERIF_REPO") else os.path.join(ROOT, ".work", "evidence_scratch")
 REPLAYS = os.path.join(ROOT, "replays")
 
 
